@@ -210,6 +210,14 @@ func childMain(c *vkit.Ctx) {
 		runtime.GOMAXPROCS(sc.Procs)
 	}
 	c.LogCase(sc.ID + ":" + sc.Family)
+	if sc.Family == "interrupted-recovery" {
+		// let the upstream's reset arrive before the recovery session sends: the re-send then fails deterministically
+		vhook.Hook = func(point string) {
+			if point == "worker.session.beforeStore" {
+				time.Sleep(3 * time.Millisecond)
+			}
+		}
+	}
 	var overlapped func() bool
 	var sentAfterStop func() int64
 	gateOff := func() {}
